@@ -3,7 +3,7 @@
 From Coq Require Import String.
 From V.Lib Require Import Base Hex.
 From V.Gen Require Import C10Consts.
-From V.C10 Require Import Model Spec Corr Wf PF4 PCs PCont PTop Bridge.
+From V.C10 Require Import Model Spec Corr Wf PF4 PCs PCont PTop PRegroup PB32a PB32b PB58 PCompl PTop2 PSort Bridge.
 From Coq Require Import List.
 Local Open Scope N_scope.
 
@@ -120,10 +120,142 @@ Proof. exact net_of_hrp_unified. Qed.
 Theorem C10_ctor_net : forall n k d, from_raw n k d = ARaw (spec_ctor_net k n) k d.
 Proof. exact from_raw_spec. Qed.
 
-(** ** Bridge (partial: F4Jumble and constructor cases) *)
-Theorem C10_agree_implies_property_partial :
-  forall c, bridged c = true -> wf_case c = true -> known_class c = 0 -> run_case c = true -> prop_case c = true.
-Proof. exact agree_implies_property_partial. Qed.
+(** ** Composition checks: exact characterisation *)
+
+(** [try_from_items_internal] accepts exactly the lists satisfying the ZIP 316 composition rules. *)
+Theorem C10_check_items_iff :
+  forall items, check_items items = Ok tt <-> spec_composition (map fst items) = true.
+Proof. exact check_items_iff. Qed.
+(** Rejected => a composition rule is violated. *)
+Theorem C10_check_items_reject :
+  forall items e, check_items items = Err e -> spec_composition (map fst items) = false.
+Proof. exact check_items_reject. Qed.
+
+(** ** 5-bit / 8-bit regrouping (with the padding rule of the repaired decoder) *)
+
+Theorem C10_regroup_roundtrip : forall b, is_bytes b = true -> fes_to_bytes (bytes_to_fes b) = Some b.
+Proof. exact regroup_roundtrip. Qed.
+(** Accepted groups are exactly the encoder's groups for the bytes returned: at most 4 padding
+    bits, all zero — one group sequence per byte string. *)
+Theorem C10_regroup_canonical :
+  forall fes b, Forall (fun v => v < 32) fes -> fes_to_bytes fes = Some b -> bytes_to_fes b = fes /\ is_bytes b = true.
+Proof. exact regroup_canonical. Qed.
+
+(** ** Bech32 / Bech32m *)
+
+(** The checksum the encoder appends verifies (for both variants) ... *)
+Theorem C10_checksum_valid :
+  forall v hrp fes, Forall (fun x => x < 32) (hrp_expand hrp ++ fes) ->
+    polymod (hrp_expand hrp ++ fes ++ checksum_fes v hrp fes) = target v.
+Proof. exact checksum_valid. Qed.
+(** ... and is the only six-symbol suffix that does. *)
+Theorem C10_checksum_unique :
+  forall v hrp fes x, Forall (fun y => y < 32) (hrp_expand hrp ++ fes) -> length x = 6%nat -> Forall (fun y => y < 32) x ->
+    polymod (hrp_expand hrp ++ fes ++ x) = target v -> x = checksum_fes v hrp fes.
+Proof. exact checksum_unique. Qed.
+(** decode (encode hrp data) = (hrp, groups of data), for both checksum variants and any code length. *)
+Theorem C10_b32_decode_encode :
+  forall v cl hrp data s, hrp_okb hrp = true -> b32_encode v cl hrp data = Some s ->
+    b32_decode v cl s = Some (hrp, bytes_to_fes data).
+Proof. exact b32_decode_encode. Qed.
+(** An accepted string with a lower-case prefix is exactly the encoder's output (lower case,
+    the unique checksum) for the prefix and groups returned. *)
+Theorem C10_b32_decode_canonical :
+  forall v cl s hrp fes,
+    b32_decode v cl s = Some (hrp, fes) -> existsb is_upper hrp = false -> existsb is_lower hrp = true ->
+    s = b32_string v hrp fes /\ Forall (fun x => x < 32) fes /\ len s <= cl /\ hrp_okb hrp = true.
+Proof. exact b32_decode_canonical. Qed.
+(** A string valid for one checksum variant is invalid for the other. *)
+Theorem C10_b32_variant_distinct :
+  forall v cl cl' s x, b32_decode v cl s = Some x ->
+    b32_decode (match v with B32 => B32m | B32m => B32 end) cl' s = None.
+Proof. exact b32_variant_distinct. Qed.
+
+(** ** Base58 / Base58Check *)
+
+Theorem C10_b58_roundtrip : forall b, is_bytes b = true -> b58_decode (b58_encode b) = Some b.
+Proof. exact b58_roundtrip. Qed.
+Theorem C10_b58_canonical : forall s b, b58_decode s = Some b -> b58_encode b = s /\ is_bytes b = true.
+Proof. exact b58_canonical. Qed.
+Theorem C10_b58check_roundtrip : forall b, is_bytes b = true -> b58check_decode (b58check_encode b) = Some b.
+Proof. exact b58check_roundtrip. Qed.
+Theorem C10_b58check_canonical :
+  forall s p, b58check_decode s = Some p -> b58check_encode p = s /\ is_bytes p = true.
+Proof. exact b58check_canonical. Qed.
+
+(** ** Strings: every kind round-trips; every accepted string is canonical *)
+
+(** A ZIP 316 well-formed container of any kind, encoded for any network without the encoder
+    panicking, decodes to the same network and items; the string needs no trimming. *)
+Theorem C10_unified_roundtrip :
+  forall H G, (forall i l x, is_bytes (H i l x) = true) -> (forall i j x, is_bytes (G i j x) = true) ->
+  forall k n items s, zip316_wf k items = true -> unified_encode H G k n items = Ok s ->
+    unified_decode H G k s = Ok (n, items) /\ trim s = s.
+Proof. exact unified_roundtrip. Qed.
+
+(** An accepted unified string is well-formed per ZIP 316 and is exactly the encoding of what
+    was returned. *)
+Theorem C10_unified_accept_canonical :
+  forall H G, (forall i l x, is_bytes (H i l x) = true) -> (forall i j x, is_bytes (G i j x) = true) ->
+  forall k s n items, unified_decode H G k s = Ok (n, items) ->
+    zip316_wf k items = true /\ unified_encode H G k n items = Ok s.
+Proof. exact unified_accept_canonical. Qed.
+
+(** Sapling and TEX values always encode (no panic). *)
+Theorem C10_raw_b32_encodes :
+  forall H G n k d, (k = Sapling /\ len d = 43) \/ (k = Tex /\ len d = 20) ->
+    exists s, encode_address H G (ARaw n k d) = Ok s.
+Proof. exact raw_b32_encodes. Qed.
+
+(** Every well-formed address value of every kind and network: the string it encodes to parses
+    back to the same value, the network being normalised for Sprout/P2PKH/P2SH (Regtest ->
+    Test, the documented sharing). Visible guard for the three Base58Check kinds: the string is
+    not by accident also a valid Bech32/Bech32m string (the parser tries those first). *)
+Theorem C10_kind_roundtrip :
+  forall H G, (forall i l x, is_bytes (H i l x) = true) -> (forall i j x, is_bytes (G i j x) = true) ->
+  forall a s, spec_addr_ok a = true -> encode_address H G a = Ok s ->
+    (match a with ARaw _ k _ => is_b58 k = true -> not_bech32 s | AUni _ _ => True end) ->
+    parse_address H G s = Ok (norm_addr a).
+Proof. exact kind_roundtrip. Qed.
+
+(** Every string the parser accepts denotes a well-formed address (ZIP 316 for unified ones) and
+    re-encodes to exactly its own trimmed form. *)
+Theorem C10_parse_accept_canonical :
+  forall H G, (forall i l x, is_bytes (H i l x) = true) -> (forall i j x, is_bytes (G i j x) = true) ->
+  forall s0 a, parse_address H G s0 = Ok a -> encode_address H G a = Ok (trim s0) /\ spec_addr_ok a = true.
+Proof. exact parse_accept_canonical. Qed.
+
+(** Two accepted strings denoting the same address are equal after trimming. *)
+Theorem C10_parse_injective :
+  forall H G, (forall i l x, is_bytes (H i l x) = true) -> (forall i j x, is_bytes (G i j x) = true) ->
+  forall s1 s2 a, parse_address H G s1 = Ok a -> parse_address H G s2 = Ok a -> trim s1 = trim s2.
+Proof. exact parse_injective. Qed.
+
+(** ** Bridge *)
+
+(** On every well-formed case outside the known-finding class, for EVERY operation: if the
+    implementation's outcome equals the model's, the property holds on the implementation's
+    outcome. ([wf_case] of a Base58Check encoding case includes the visible guard that the
+    produced string is not accidentally also valid Bech32/Bech32m; the check evaluates it.) *)
+Theorem C10_agree_implies_property :
+  forall c, wf_case c = true -> known_class c = 0 -> run_case c = true -> prop_case c = true.
+Proof. exact agree_implies_property. Qed.
+
+(** [try_from_items]: accepted iff the order-independent composition rules hold on the given
+    items; the container is a permutation of them in strictly ascending typecode order. *)
+Theorem C10_try_from_items_spec :
+  forall items,
+    match try_from_items items with
+    | Ok l => Permutation.Permutation l items /\ spec_composition (map fst l) = true /\ spec_set_ok (map fst items) = true
+    | Err _ => spec_set_ok (map fst items) = false
+    | Panic => False
+    end.
+Proof. exact try_from_items_spec. Qed.
+
+(** The known-finding class is exactly "the encoder panics": outside it encoding succeeds. *)
+Theorem C10_encodable_encodes :
+  forall H G k n items, spec_encodable (hrp_unified k n) items = true -> exists s, unified_encode H G k n items = Ok s.
+Proof. exact encodable_encodes. Qed.
 
 (** non-vacuity: a two-item container satisfies the premises of the round trip *)
 Example C10_nonvacuous :
